@@ -169,9 +169,10 @@ pub fn factor(n: Uint, alg: Algo, prefs: &Preferences) -> Result<Vec<Uint>, Fact
     if n.is_zero() {
         return Ok(vec![n]);
     }
-    // Modular arithmetic (ZmodN) only supports moduli up to 512 bits:
-    // refuse larger inputs instead of panicking later.
-    if n.bits() > 64 * arith_montgomery::MINT_WORDS as u32 {
+    // Modular arithmetic (ZmodN) stores moduli on 512 bits, but additions need
+    // one spare bit and modular inversion (extended GCD cofactors) two:
+    // refuse larger inputs instead of computing with invalid arithmetic.
+    if n.bits() > 64 * arith_montgomery::MINT_WORDS as u32 - 2 {
         return Err(FactoringFailure);
     }
     let mut factors = vec![];
